@@ -18,7 +18,7 @@ def head1 (s : String) : Char := s.toList.headD ' '
 def kindOf : String → Option Kind
   | "cb" => some .coinbase | "ra" => some .registerAsset | "wd" => some .withdraw
   | "rd" => some .returnDeposit | "pp" => some .proposal | "rv" => some .review
-  | "tk" => some .tracking | "ot" => some .other | "sp" => some .other | "rc" => some .other | "xc" => some .other | _ => none
+  | "tk" => some .tracking | "ot" => some .other | "sp" => some .other | "rc" => some .other | "xc" => some .other | "ca" => some .other | _ => none
 
 def takeN {α} (f : List String → Option (α × List String)) : Nat → List String → Option (List α × List String)
   | 0, ts => some ([], ts)
@@ -58,9 +58,9 @@ def pCount : List String → Option (Nat × List String)
   | [] => none
 
 def pTx : List String → Option (Tx × List String)
-  | id :: k :: pv :: _nonce :: ts => do
+  | id :: kd :: pv :: _nonce :: ts => do
     let id ← hexNat? id
-    let k ← kindOf k
+    let k ← kindOf kd
     let pv ← nat? pv
     let (n, ts) ← pCount ts
     let (ins, ts) ← takeN pIn n ts
@@ -71,6 +71,7 @@ def pTx : List String → Option (Tx × List String)
     let (n, ts) ← pCount ts
     let (pds, ts) ← takeN pStr n ts
     -- a copied coinbase carries its lock time (8 hex digits); the model reads it as decimal
+    let pds := if kd = "ca" then ["ca"] else pds
     let pds := if k == .coinbase then pds.map fun d => toString ((hexNat? d).getD 0) else pds
     pure ({ id := id, kind := k, pver := pv, ins := ins, outs := outs, phashes := phs, pdatas := pds }, ts)
   | _ => none
